@@ -29,10 +29,14 @@ RULE = ("cases = summary values (function calls with value paths, nested calls, 
 EXPLANATION = ("Lean theorems: for every summary value whose strings satisfy the stated byte-class hypotheses and whose numbers are in "
                "the C++ types' ranges, reading back the text the writers produce (through the modelled tinyxml2 lexer/tree builder/"
                "attribute reader and the cache-file wrapper) yields the value again, for each summary kind and for the whole cache file; "
-               "hence every whole-program function of the summaries is storage independent; the build-dir unused-function algorithm "
-               "equals the in-memory one under explicit hypotheses; each hypothesis has a counterexample theorem that is replayed on the "
+               "hence every whole-program function of the summaries is storage independent (also on the real six-element cache file, where "
+               "the whole-program handler and the unused-function handler each read their part); the build-dir unused-function algorithm, "
+               "run through the written text exactly as the driver and the code run it, equals the in-memory one under explicit hypotheses; each hypothesis has a counterexample theorem that is replayed on the "
                "real code. Model tied to the code by byte-exact in-process correspondence of all writers/readers (incl. damaged input) "
-               "and a CLI comparison of the four storage modes. Not modelled: per-file analysis that produces the summaries, "
+               "(the objects of the main theorem - fromBuildDir, inMemory, six-element cache files - are executed against the real "
+               "AnalyzerInformation / processFilesTxt / handler / CheckUnusedFunctions::analyseWholeProgram; the handler and the in-memory "
+               "aggregation of lib/cppcheck.cpp, which cannot be called in-process, are compared as source, fail closed) "
+               "and a CLI comparison of the storage modes on 12 generated programs per run (chains, ODR classes, unused functions). Not modelled: per-file analysis that produces the summaries, "
                "parseTokens' token patterns, comments/CDATA/DTD in XML, Path::simplifyPath (parameter), cached <error> elements.")
 THEOREMS = [
     "Cppcheck.Ctu.attrDecode_toxml", "Cppcheck.Ctu.lossy_eq_self_iff", "Cppcheck.Ctu.toxml_lossy_counterexample",
@@ -42,7 +46,9 @@ THEOREMS = [
     "Cppcheck.Ctu.unsafeUsage_roundtrip", "Cppcheck.Ctu.bufferInfo_roundtrip", "Cppcheck.Ctu.classInfo_roundtrip",
     "Cppcheck.Ctu.cacheFile_roundtrip", "Cppcheck.Ctu.wholeProgram_storage_independent",
     "Cppcheck.Ctu.rawField_counterexample", "Cppcheck.Ctu.roundtrip_unrestricted_counterexample", "Cppcheck.Ctu.pathFile_counterexample",
-    "Cppcheck.Unused.unusedInfo_roundtrip", "Cppcheck.Unused.unused_wp_equiv",
+    "Cppcheck.Unused.unusedInfo_roundtrip", "Cppcheck.Unused.unusedBuildDir_via_text", "Cppcheck.Unused.unused_wp_equiv",
+    "Cppcheck.Unused.unused_collected_equiv", "Cppcheck.Unused.realCacheFile_both", "Cppcheck.Unused.wholeProgram_storage_independent_realFiles",
+    "Cppcheck.Unused.unused_templatename_counterexample",
     "Cppcheck.Unused.unused_dupname_counterexample", "Cppcheck.Unused.static_counterexample", "Cppcheck.Unused.unused_retattr_counterexample",
 ]
 MODULES = ["Cppcheck.Props.C22"]
@@ -332,6 +338,78 @@ def translator_checks(ctx, res):
     if 'def NestedCall.toXml (c : NestedCall) : Str := c.toXmlWith "nested-call"' not in model:
         problems.append("model: NestedCall.toXml is not the <nested-call> writer")
     res.oblig("T1:ctu.cpp-literals-equal-model", not problems, "translation", "; ".join(problems))
+    return problems
+
+
+HANDLER_EXPECT = """const auto handler = [&fileInfoList, &ctuFileInfo](const char* checkattr, const tinyxml2::XMLElement* e, const AnalyzerInformation::Info& filesTxtInfo) {
+if (std::strcmp(checkattr, "ctu") == 0) {
+ctuFileInfo.loadFromXml(e);
+return;
+}
+for (const Check *check : CheckInstances::get()) {
+if (checkattr == check->name()) {
+if (Check::FileInfo* fi = check->loadFileInfoFromXml(e)) {
+fi->file0 = filesTxtInfo.sourceFile;
+fileInfoList.push_back(fi);
+}
+}
+}
+};"""
+
+
+def norm_src(t):
+    return "\n".join(l.strip() for l in t.strip().split("\n") if l.strip())
+
+
+def translator_checks_wp(ctx, res):
+    """T2: the parts of the whole-program plumbing the harness cannot call (private / fixed check registry) are compared as source:
+    the handler of analyseWholeProgram(buildDir) = the copy in harness/c22.cpp (op wpload), the setFileInfo names, the in-memory
+    aggregation, and 'nullptr for an empty summary' in the four getFileInfo functions."""
+    repo = os.environ.get("VERIF_REPO") or core.REPO
+    problems = []
+    src = open(os.path.join(repo, "lib", "cppcheck.cpp"), encoding="utf-8", errors="replace").read()
+    b = body_of(src, "unsigned int CppCheck::analyseWholeProgram(const std::string &buildDir")
+    if b is None:
+        problems.append("unrecognised shape: analyseWholeProgram(buildDir) not found")
+    else:
+        i = b.find("const auto handler =")
+        j = b.find("};", i)
+        if i < 0 or j < 0 or norm_src(b[i:j + 2]) != norm_src(HANDLER_EXPECT):
+            problems.append("handler of analyseWholeProgram(buildDir) differs from the copy the harness runs: %r" % (norm_src(b[i:j + 2])[:300] if i >= 0 else "not found"))
+        if "c->analyseWholeProgram(ctuFileInfo, fileInfoList, mSettings, mErrorLogger);" not in b:
+            problems.append("analyseWholeProgram(buildDir): the call of the checks changed")
+    b = body_of(src, "bool CppCheck::analyseWholeProgram()")
+    want = ["ctu.functionCalls.insert(ctu.functionCalls.end(), fi2->functionCalls.cbegin(), fi2->functionCalls.cend());",
+            "ctu.nestedCalls.insert(ctu.nestedCalls.end(), fi2->nestedCalls.cbegin(), fi2->nestedCalls.cend());",
+            "c->analyseWholeProgram(ctu, mFileInfo, mSettings, mErrorLogger)"]
+    if b is None or any(w not in b for w in want):
+        problems.append("in-memory analyseWholeProgram(): aggregation of the CTU infos changed")
+    for lit in ['analyzerInformation->setFileInfo("ctu", fi1->toString());', 'analyzerInformation->setFileInfo(c->name(), fi->toString());',
+                'setFileInfo("CheckUnusedFunctions", unusedFunctionsChecker.analyzerInfo(tokenizer));',
+                "if (Check::FileInfo * const fi = c->getFileInfo(tokenizer, mSettings, currentConfig)) {"]:
+        if lit not in src:
+            problems.append("cppcheck.cpp: statement not found: " + lit)
+    ai = open(os.path.join(repo, "lib", "analyzerinfo.cpp"), encoding="utf-8", errors="replace").read()
+    if "if (mOutputStream.is_open() && !fileInfo.empty())" not in ai:
+        problems.append("AnalyzerInformation::setFileInfo: the empty-text test changed")
+    names = {"checkbufferoverrun": ("Bounds checking", ["if (unsafeArrayIndex.empty() && unsafePointerArith.empty()) {", "return nullptr;"]),
+             "checkclass": ("Class", ["if (classDefinitions.empty())", "return nullptr;"]),
+             "checknullpointer": ("Null pointer", ["if (unsafeUsage.empty())", "return nullptr;"]),
+             "checkuninitvar": ("Uninitialized variables", ["if (unsafeUsage.empty())", "return nullptr;"])}
+    for f, (name, lits) in names.items():
+        h = open(os.path.join(repo, "lib", f + ".h"), encoding="utf-8", errors="replace").read()
+        if ('return "%s";' % name) not in h:
+            problems.append("%s.h: check name is not %r" % (f, name))
+        c = open(os.path.join(repo, "lib", f + ".cpp"), encoding="utf-8", errors="replace").read()
+        m = re.search(r"Check::FileInfo \*\s*Check\w+::getFileInfo\(", c)
+        gb = body_of(c, m.group(0)) if m else None
+        if gb is None or any(l not in gb for l in lits):
+            problems.append("%s.cpp: getFileInfo no longer returns nullptr for an empty summary in the recognised form" % f)
+    model = open(os.path.join(core.LEAN, "Cppcheck", "Model", "Ctu.lean"), encoding="utf-8").read()
+    for name in ["ctu", "Bounds checking", "Class", "Null pointer", "Uninitialized variables"]:
+        if ('c = "%s".toList' % name) not in model:
+            problems.append("model checkKind lacks %r" % name)
+    res.oblig("T2:whole-program-plumbing-equals-model", not problems, "translation", "; ".join(problems))
     return problems
 
 
@@ -681,10 +759,21 @@ def run(ctx, res):
     rng = ctx.rng
     thorough = ctx.tier == "thorough"
     core.prove(ctx, res, MODULES, THEOREMS)
+    res.assumptions += [
+        "strings written through ErrorLogger::toxml are XML-safe (TAB, LF, CR, 0x20..0x7f); otherwise finding F18 (toxml-lossy-byte)",
+        "strings written raw (function ids = file:line:col, argument names) contain no '\"', '&', CR, NUL (counterexample rawField_counterexample; in-process witness)",
+        "numbers are values of their C++ field types; value-path file names are Path::simplifyPath fixpoints (FileLocation stores the simplified name)",
+        "unusedFunction: UnusedHyp (no '<' in defined names, no unused attribute on the return-type token, real locations, one location per name; "
+        "otherwise findings F19 / counterexample theorems) and TextOk (names / files XML-safe)",
+        "the whole-program checks are functions of the loaded summaries (file0 of loaded infos, Settings, 'one or several jobs' are outside the Lean model: jobs only change "
+        "which summaries are kept in memory, compared on the CLI)",
+        "Path::simplifyPath is a parameter; comments/CDATA/DTD in cache files and cached <error> elements are outside the model",
+    ]
     drv = ctx.driver("drv_c22")
     exe = harness_exe(ctx, res)
     binary = cppcheck_bin(ctx, res)
     translator_checks(ctx, res)
+    translator_checks_wp(ctx, res)
     scale = 6 if thorough else 1
     import time
     t_last = [time.time()]
@@ -899,18 +988,107 @@ def run(ctx, res):
                    dict(kind="unused-static", files=files, static=S, op=hop), key="staticfunction-missing-with-build-dir")
 
     lap("unused")
-    # ---- C9 CLI: the four storage modes ---------------------------------------------------------------------------
-    ncli = 40 if thorough else 4
-    nfind = 0
-    for k in range(ncli):
-        r = rng.random()
-        if r < 0.75:
-            files, extra, desc = gen_cli_program(rng, k)
-        elif r < 0.88:
-            files, extra, desc = gen_cli_classes(rng)
+    # ---- C8c wp: the objects of the main theorem (cache files with six <FileInfo> elements, fromBuildDir, inMemory) ----------
+    mops, metas = [], []
+    for _ in range(50 * scale):
+        tus = []
+        lossy = rng.random() < 0.2
+        for _ in range(rng.choice([1, 2, 2, 3])):
+            mode = "lossy" if (lossy and rng.random() < 0.5) else "domain"
+            fcs = [gen_fc(rng, mode) for _ in range(rng.choice([0, 0, 1, 2]))]
+            ncs = [gen_nc(rng, mode) for _ in range(rng.choice([0, 0, 1, 2]))]
+            a = [gen_uu(rng, mode) for _ in range(rng.choice([0, 0, 1, 2]))]
+            b = [gen_uu(rng, mode) for _ in range(rng.choice([0, 0, 1, 2]))]
+            cds = [gen_cd(rng, mode) for _ in range(rng.choice([0, 0, 1, 2]))]
+            np_ = [gen_uu(rng, mode) for _ in range(rng.choice([0, 0, 1, 2]))]
+            un = [gen_uu(rng, mode) for _ in range(rng.choice([0, 0, 1, 2]))]
+            fname = "w%d.c" % len(tus)
+            decls = [(rng.choice(["f0", "f1", "f2", "main", "g<1>"]) if rng.random() < 0.9 else "k\xe9", fname, rng.randrange(1, 50), rng.randrange(1, 30), True, rng.random() < 0.5, False)
+                     for _ in range(rng.choice([0, 1, 2]))]
+            calls = [(rng.choice(["f0", "f1", "f2", "ext"]), fname) for _ in range(rng.choice([0, 0, 1, 2]))]
+            tus.append(dict(hash=rng.choice([0, 1, 2 ** 64 - 1, rng.randrange(2 ** 64)]), fcs=fcs, ncs=ncs, a=a, b=b, cds=cds, np=np_, un=un, decls=decls, calls=calls))
+        words = ["wp", str(len(tus))]
+        strs_esc, strs_raw, sp_ok = [], [], True
+        for t in tus:
+            words += [str(t["hash"]), enc_fi(t["fcs"], t["ncs"]), enc_uus(t["a"]), enc_uus(t["b"]), str(len(t["cds"]))] + [enc_cd(c) for c in t["cds"]]
+            words += [enc_uus(t["np"]), enc_uus(t["un"]), str(len(t["decls"]))]
+            for (n, f, l, c, isc, st, ru) in t["decls"]:
+                words += [hx(n), hx(f), str(l), str(c), "1", "1" if st else "0", "0"]
+            words.append(str(len(t["calls"])))
+            for (n, f) in t["calls"]:
+                words += [hx(n), hx(f)]
+            e, r, pf = fi_strings(t["fcs"], t["ncs"])
+            strs_esc += e + [u["loc"][0] for u in t["a"] + t["b"] + t["np"] + t["un"]] + [x for c in t["cds"] for x in (c["name"], c["file"], c["cfg"])]
+            strs_esc += [n.encode("latin-1") for (n, *_r) in t["decls"]] + [n.encode("latin-1") for (n, _f) in t["calls"]]
+            strs_raw += r + [u["myId"] for u in t["a"] + t["b"] + t["np"] + t["un"]] + [u["name"] for u in t["a"] + t["b"] + t["np"] + t["un"]]
+        mops.append(" ".join(words))
+        metas.append(classify_strings(strs_esc, strs_raw))
+    rc, mout, err = core.run_lines(drv, [], mops, timeout=900)
+    if len(mout) != len(mops):
+        raise core.CheckBroken("C22 driver produced %d lines for %d wp ops: %s" % (len(mout), len(mops), err[-300:]))
+    hops, parsed = [], []
+    for o in mout:
+        m = re.match(r"^W=(.*) I=(.*) B=(\S*) P=(\S*)$", o)
+        if not m:
+            raise core.CheckBroken("C22 driver wp line: " + o[:300])
+        W, I, B, P = m.groups()
+        parsed.append((W, I, B))
+        fw = []
+        for fdesc in P.split(","):
+            h, infos = fdesc.split(":", 1)
+            pairs = [x.split("=") for x in infos.split(";")]
+            fw.append("%s %d %s" % (h, len(pairs), " ".join("%s %s" % (a_, b_) for a_, b_ in pairs)))
+        hops.append("wpload %d %s" % (len(fw), " ".join(fw)))
+    rc, hout, err = core.run_lines([exe, ctx.tmp], [], hops, timeout=900)
+    if len(hout) != len(hops):
+        raise core.CheckBroken("C22 harness produced %d lines for %d wpload ops: %s" % (len(hout), len(hops), err[-300:]))
+    mism, nontriv = [], 0
+    for i, ((W, I, B), o, key) in enumerate(zip(parsed, hout, metas)):
+        want = "W=%s B=%s" % (W, B)
+        nt = ("FC " in W or "NC " in W) and ("|buf:|" not in W or "|cls:|" not in W)
+        res.case("wp|" + mops[i], nt, dict(tie="wp", op=mops[i][:300], impl=o[:300], model=want[:300]) if i == 0 else None)
+        res.count("op:wp")
+        if o != want:
+            mism.append(i)
         else:
-            files, extra, desc = gen_cli_unused(rng)
-        modes = four_modes(ctx, binary, files, extra, "g%d" % k, full=thorough)
+            res.traces_validated += 1
+        # the theorem instance, executed: what the model reads back from its own cache files = the in-memory aggregation
+        if key is None and W != I:
+            report(res, "wp-model", "model: fromBuildDir(store) != inMemory on a summary list inside the hypotheses (theorem wholeProgram_storage_independent_realFiles would be false): %s" % mops[i][:300],
+                   dict(kind="wp", op=mops[i], W=W, I=I))
+        # P_impl on the real code: the real readers on the real cache files give the in-memory aggregation
+        hw = o.split(" B=")[0][2:]
+        if hw != I:
+            if key in ("raw-field-special",):
+                hyp_counter[key] = hyp_counter.get(key, 0) + 1
+            else:
+                report(res, "wp:%s" % key, "whole-program input read from the cache files differs from the in-memory input: op=%s read=%s in-memory=%s" % (mops[i][:300], hw[:300], I[:300]),
+                       dict(kind="wp", op=mops[i], hop=hops[i], read=hw, in_memory=I), key=key)
+        else:
+            res.count("wp-roundtrip-ok")
+    res.oblig("correspondence:wp", not mism, "correspondence",
+              "" if not mism else "%d of %d ops differ; first: op=%s impl=%s model=W=%s B=%s" % (len(mism), len(mops), mops[mism[0]][:400], hout[mism[0]][:600], parsed[mism[0]][0][:400], parsed[mism[0]][2][:200]))
+    lap("wp")
+    # ---- C9 CLI: the four storage modes ---------------------------------------------------------------------------
+    ncli = 48 if thorough else 12
+    # every generator is drawn in every run: chains (most), one-definition-rule classes, unused functions
+    plan = ["chains"] * (ncli - 2 * max(2, ncli // 6)) + ["odr"] * max(2, ncli // 6) + ["unused"] * max(2, ncli // 6)
+    nfind = 0
+    cases = []
+    for k in range(ncli):
+        if plan[k] == "chains":
+            cases.append(gen_cli_program(rng, k))
+        elif plan[k] == "odr":
+            cases.append(gen_cli_classes(rng))
+        else:
+            cases.append(gen_cli_unused(rng))
+    # the cppcheck runs of different cases are independent (own scratch directory each): three cases at a time
+    from concurrent.futures import ThreadPoolExecutor
+    with ThreadPoolExecutor(max_workers=3) as pool:
+        all_modes = list(pool.map(lambda kc: four_modes(ctx, binary, kc[1][0], kc[1][1], "g%d" % kc[0], full=thorough), enumerate(cases)))
+    for k in range(ncli):
+        files, extra, desc = cases[k]
+        modes = all_modes[k]
         ref = modes["j1"]
         nfind += len(ref)
         res.case("cli|" + json.dumps(files, sort_keys=True) + "|" + " ".join(extra), len(ref) > 0,
